@@ -865,6 +865,9 @@ func (e *Executor) Execute(ctx context.Context, m File) (err error) {
 			}
 		}
 	}
+	// The statements that were not applied yet may have been edited
+	// since the last attempt, update the total number of statements.
+	r.Total = len(stmts)
 	e.log.Log(LogFile{m, r.Version, r.Description, r.Applied})
 	if err := e.fileChecks(ctx, m, r); err != nil {
 		e.log.Log(LogError{Error: err})
